@@ -49,7 +49,7 @@ Theorem checked_call_delivers : forall f env,
   (forall p, mem p (fc_dummies f) = true -> has_kind (kind_of p (fc_kinds f)) (flookup p env)) ->
   Forall2 (fun p act => forall v, documented (fc_dummies f) env p = Some v -> act = v) (fc_params f) (actuals f env).
 Proof.
-  intros f env Hok Hk. unfold fcall_ok in Hok. unfold actuals.
+  intros f env Hok Hk. unfold fcall_ok in Hok. apply andb_true_iff in Hok. destruct Hok as [Hok _]. unfold actuals.
   generalize dependent (fc_args f). induction (fc_params f) as [|p ps IH]; intros args Hok.
   - destruct args; [constructor | discriminate].
   - destruct args as [|a args]; [discriminate|]. cbn [args_ok] in Hok. apply andb_true_iff in Hok. destruct Hok as [Ha Hr].
@@ -81,3 +81,30 @@ Proof.
   - rewrite rev_involutive. pose proof (drop_blanks_no_leading_blank (rev s)) as Hd.
     destruct (drop_blanks (rev s)) as [|c r]; [exact I|]. intros E. subst c. rewrite N.eqb_refl in Hd. discriminate.
 Qed.
+
+
+(* an output dummy of a checked call: the caller's variable holds what the C function stored *)
+Theorem checked_outputs_reach_the_caller : forall f stored before r c,
+  fcall_ok f = true -> mem r (fc_outputs f) = true -> In (c, r) (fc_args f) -> passes_value c = true ->
+  caller_sees f stored before r = stored r.
+Proof.
+  intros f stored before r c Hok Hout Hin Hp. unfold fcall_ok in Hok. apply andb_true_iff in Hok. destruct Hok as [_ Hok].
+  unfold outs_ok in Hok. rewrite forallb_forall in Hok. specialize (Hok (c, r) Hin). cbn [out_ok] in Hok.
+  rewrite Hout, Hp in Hok. cbn [andb] in Hok. unfold caller_sees.
+  apply orb_true_iff in Hok. destruct Hok as [Hb | Hb].
+  - assert (E : existsb (fun a => by_ref (fst a) && String.eqb (snd a) r) (fc_args f) = true).
+    { apply existsb_exists. exists (c, r). split; [exact Hin|]. cbn [fst snd]. rewrite Hb, String.eqb_refl. reflexivity. }
+    rewrite E. reflexivity.
+  - apply andb_true_iff in Hb. destruct Hb as [Hc Hcb].
+    destruct (existsb (fun a => by_ref (fst a) && String.eqb (snd a) r) (fc_args f)); [reflexivity|].
+    assert (E : existsb (fun a => fconv_eqb (fst a) FBool && String.eqb (snd a) r) (fc_args f) = true).
+    { apply existsb_exists. exists (c, r). split; [exact Hin|]. cbn [fst snd]. rewrite Hc, String.eqb_refl. reflexivity. }
+    rewrite E, Hcb. reflexivity.
+Qed.
+
+(* without the copy back the caller keeps the old value: the rule is needed *)
+Example copy_back_is_needed :
+  let f := {| fc_name := "flip"; fc_dummies := ["flag"]; fc_kinds := [("flag", DLog)]; fc_params := ["flag"];
+              fc_args := [(FBool, "flag")]; fc_outputs := ["flag"]; fc_copyback := [] |} in
+  fcall_ok f = false /\ caller_sees f (fun _ => 1) (fun _ => 0) "flag" = 0.
+Proof. split; reflexivity. Qed.
